@@ -75,13 +75,13 @@ PROPS.update({
     "C07": {
         "level": "exploration",
         "real_binary_smoke": True,
-        "parts": [{"engine": "integ", "profile": "c07", "weight": 2}, {"engine": "cli", "profile": "cli", "weight": 1}],
+        "parts": [{"engine": "integ", "profile": "c07", "weight": 4}, {"engine": "cli", "profile": "cli", "weight": 2}, {"engine": "fault", "profile": "c13", "weight": 1}],
         "rule": "indices 0..1535: every exit status 0..255 at each of 3 command positions, with and without allow_failure, directly or as a stage; beyond: random C06-style worlds with more failures. Oracle: Task.Errored/ExitCode/Skipped, error returned by Run/Schedule and stage statuses == model. CLI part: generated configuration file + argv of 1..4 targets (tasks and pipelines in any order, root action or `run`, optional `-- args` containing a task name) through the in-process command line: targets execute in argv order without overlap, nothing of a later target starts after the first failing one, error returned iff a target failed, unrequested tasks never run. distinct = canonical event-log hash; non-trivial = >=2 processes alive together or >=1 non-zero exit",
         "assumptions": _INTEG_ASSUME + ["CLI part: entered at makeApp().Run(argv) in-process; main()'s error -> exit status 1 mapping (5 lines) is not executed"],
     },
     "C11": {
         "level": "exploration",
-        "parts": [{"engine": "integ", "profile": "c11", "weight": 1}],
+        "parts": [{"engine": "integ", "profile": "c11", "weight": 3}, {"engine": "fault", "profile": "c06s", "weight": 1}],
         "rule": "producers with several commands/variations writing seeded byte strings (empty, multi-line, CRLF, unicode, quoting hazards, up to 64 KiB) in seeded chunkings, some stderr chunks interleaved, 12% of the tasks declared interactive; task names over a printable-ASCII alphabet (mangled names kept distinct), with/without exportAs; consumers at seeded DAG positions; {{.Output}} chaining with shell-safe words. Oracle: Task.Output() byte-exact; every exec of a direct dependant sees <NAME>_OUTPUT / exportAs == producer stdout; chained command argv == previous command's output. distinct = canonical event-log hash; non-trivial as C06",
         "assumptions": _INTEG_ASSUME,
     },
@@ -112,7 +112,7 @@ PROPS.update({
     },
     "C14": {
         "level": "exploration",
-        "parts": [{"engine": "fault", "profile": "c14", "weight": 3}, {"engine": "cli", "profile": "cli", "weight": 2}, {"engine": "fault", "profile": "c12", "weight": 1}],
+        "parts": [{"engine": "fault", "profile": "c14", "weight": 3}, {"engine": "cli", "profile": "cli", "weight": 2}, {"engine": "fault", "profile": "c12", "weight": 1}, {"engine": "fault", "profile": "c08", "weight": 1}],
         "rule": "worlds: 1..3 contexts with 0..2 up/down/before/after service commands (up fails with p=0.1, down with p=0.2 per command), 1..5 (thorough 8) tasks spread over them with/without before/after/condition/allow_failure and failing commands, started simultaneously, one after another, or as parallel/chained stages; Finish called once or twice; CLI part: the CLI worlds of C07 with 0..2 contexts (down exactly once at shutdown, after all tasks of all targets, for used contexts, whether the targets succeeded or failed). Schedule space: which goroutine parked at Run entry / Up entry / inside a command proceeds next, including releasing further tasks into Up() while `up` is still running (limbo fast-forward). distinct = canonical event-log hash; all runs non-trivial",
         "assumptions": _INTEG_ASSUME + ["a skipped task may have zero or one before/after hook block; a context whose up failed may or may not get its down commands (statement silent)", "context hook commands are attributed to task executions by goroutine id"],
     },
